@@ -289,10 +289,11 @@ VSfdefine(int32 vkey, const char *field, int32 localtype, int32 order)
     /* --- then look in the user's symbol table --- */
     for (replacesym = 0, j = 0; j < vs->nusym; j++)
         if (!strcmp(av[0], vs->usym[j].name)) {
-            if (localtype != rstab[j].type && order != rstab[j].order) {
-                replacesym = 1;
-                break;
-            }
+            /* the field is already defined: the new definition replaces it
+               (the old test indexed the reserved-symbol table rstab[] with the
+               user-symbol index, out of bounds from the 10th user field on) */
+            replacesym = 1;
+            break;
         }
 
     if (replacesym)
